@@ -97,6 +97,20 @@ def observe(base, pay, wcfg, level, long_lived=()):
     return files, chunks
 
 
+class _Refused:
+    """stands for an accessor that could not be built from documented options"""
+    def store_file(self, *a, **k):
+        raise OSError("documented command-line option refused by the argument parser")
+    store_chunk = store_file
+
+    def fetch_file(self, *a, **k):
+        raise OSError("documented command-line option refused by the argument parser")
+    fetch_chunk = fetch_file
+
+    def file_exists(self, *a, **k):
+        return False
+
+
 def run_history(workdir, cfg, ops, salt=0, level=9, via="ctor"):
     from neuroglancer_scripts import file_accessor as fa
     base = tempfile.mkdtemp(prefix="fs_", dir=workdir)
@@ -113,11 +127,30 @@ def run_history(workdir, cfg, ops, salt=0, level=9, via="ctor"):
         from neuroglancer_scripts import accessor as acc_mod
         enc = base.replace("%", "%25").replace(" ", "%20")
         url = {"path": base, "file": "file://" + enc, "precomputed": "precomputed://" + base,
-               "precomputed-file": "precomputed://file://" + enc}[via]
+               "precomputed-file": "precomputed://file://" + enc, "argparse": base}[via]
         opts = {"flat": cfg["flat"], "gzip": cfg["gzip"], "compresslevel": level}
         if via == "path" and not cfg["flat"] and cfg["gzip"] and level == 9:
             opts = {}                      # the documented defaults: deep layout, gzip, level 9
-        acc = acc_mod.get_accessor_for_url(url, opts)
+        if via == "argparse":
+            # the options dictionary as the command-line tools build it: the REAL argument parser
+            # (accessor.add_argparse_options) on the documented option spellings
+            import argparse
+            import contextlib
+            import io
+            parser = argparse.ArgumentParser()
+            acc_mod.add_argparse_options(parser)
+            argv = ["--compresslevel", str(level)]
+            if cfg["flat"]:
+                argv.append("--flat")
+            if not cfg["gzip"]:
+                argv.append(("--no-gzip", "--no-compression")[salt % 2])
+            url = base
+            try:
+                with contextlib.redirect_stderr(io.StringIO()):
+                    opts = vars(parser.parse_args(argv))
+            except SystemExit:
+                opts = None        # a documented option was refused: every store of the history fails
+        acc = acc_mod.get_accessor_for_url(url, opts) if opts is not None else _Refused()
     reader = fa.FileAccessor(base, flat=cfg["flat"], gzip=cfg["gzip"], compresslevel=level)
     events = []
     try:
